@@ -28,25 +28,33 @@ theorem classify_spec (c : Content) : ∀ (ks st dy apn : List Name),
       (∀ k ∈ S, isRS c k = false ∧ (isVP c k = true ∨
         ∃ d, c.derived.lookup k = some d ∧ ∀ a ∈ d.args, a ∈ A ++ apn)) ∧
       (∀ a ∈ A, a ∈ S ∧ isRS c a = false ∧ isVP c a = false) ∧
-      (∀ a ∈ A ++ apn, a ∈ omKeys c.pars ∨ OnlyParams c a) := by
+      (∀ a ∈ A ++ apn, a ∈ omKeys c.pars ∨ OnlyParams c a) ∧
+      (ks.Nodup → ∀ k ∈ S, k ∉ D) := by
   intro ks
   induction ks with
   | nil =>
     intro st dy apn hgood
     refine ⟨[], [], [], by simp [classify], List.Sublist.refl _, List.Sublist.refl _,
-      ?_, ?_, ?_, ?_, by simpa using hgood⟩
+      ?_, ?_, ?_, ?_, by simpa using hgood, ?_⟩
     · intro k hk; cases hk
     · intro k hk; cases hk
     · intro k hk; cases hk
     · intro k hk; cases hk
+    · intro _ k hk; cases hk
   | cons k ks ih =>
     intro st dy apn hgood
     unfold classify
     by_cases hrs : isRS c k = true
     · have hrs' : ((omKeys c.rxns).contains k || (omKeys c.surs).contains k) = true := hrs
       simp only [hrs', if_true]
-      obtain ⟨S, D, A, heq, hS, hD, hcov, hdyn, hstat, hnew, hg⟩ := ih st (k :: dy) apn hgood
-      refine ⟨S, k :: D, A, by simp [heq], hS.cons _, hD.cons_cons _, ?_, ?_, hstat, hnew, hg⟩
+      obtain ⟨S, D, A, heq, hS, hD, hcov, hdyn, hstat, hnew, hg, hdisj⟩ := ih st (k :: dy) apn hgood
+      refine ⟨S, k :: D, A, by simp [heq], hS.cons _, hD.cons_cons _, ?_, ?_, hstat, hnew, hg, ?_⟩
+      rotate_left 2
+      · intro hnd x hxS hxD
+        simp only [List.nodup_cons] at hnd
+        rcases List.mem_cons.mp hxD with rfl | h
+        · exact hnd.1 (hS.subset hxS)
+        · exact hdisj hnd.2 x hxS h
       · intro x hx
         rcases List.mem_cons.mp hx with rfl | hx'
         · exact Or.inr (Or.inl (by simp))
@@ -66,8 +74,14 @@ theorem classify_spec (c : Content) : ∀ (ks st dy apn : List Name),
       by_cases hvp : isVP c k = true
       · have hvp' : ((omKeys c.vars).contains k || (omKeys c.pars).contains k) = true := hvp
         simp only [hvp', if_true]
-        obtain ⟨S, D, A, heq, hS, hD, hcov, hdyn, hstat, hnew, hg⟩ := ih (k :: st) dy apn hgood
-        refine ⟨k :: S, D, A, by simp [heq], hS.cons_cons _, hD.cons _, ?_, hdyn, ?_, ?_, hg⟩
+        obtain ⟨S, D, A, heq, hS, hD, hcov, hdyn, hstat, hnew, hg, hdisj⟩ := ih (k :: st) dy apn hgood
+        refine ⟨k :: S, D, A, by simp [heq], hS.cons_cons _, hD.cons _, ?_, hdyn, ?_, ?_, hg, ?_⟩
+        rotate_left 3
+        · intro hnd x hxS hxD
+          simp only [List.nodup_cons] at hnd
+          rcases List.mem_cons.mp hxS with rfl | h
+          · exact hnd.1 (hD.subset hxD)
+          · exact hdisj hnd.2 x h hxD
         · intro x hx
           rcases List.mem_cons.mp hx with rfl | hx'
           · exact Or.inl (by simp)
@@ -88,8 +102,12 @@ theorem classify_spec (c : Content) : ∀ (ks st dy apn : List Name),
         cases hd : c.derived.lookup k with
         | none =>
           simp only
-          obtain ⟨S, D, A, heq, hS, hD, hcov, hdyn, hstat, hnew, hg⟩ := ih st dy apn hgood
-          refine ⟨S, D, A, heq, hS.cons _, hD.cons _, ?_, hdyn, hstat, hnew, hg⟩
+          obtain ⟨S, D, A, heq, hS, hD, hcov, hdyn, hstat, hnew, hg, hdisj⟩ := ih st dy apn hgood
+          refine ⟨S, D, A, heq, hS.cons _, hD.cons _, ?_, hdyn, hstat, hnew, hg, ?_⟩
+          rotate_left 1
+          · intro hnd x hxS hxD
+            simp only [List.nodup_cons] at hnd
+            exact hdisj hnd.2 x hxS hxD
           intro x hx
           rcases List.mem_cons.mp hx with rfl | hx'
           · exact Or.inr (Or.inr ⟨hrs0, hvp0, hd⟩)
@@ -107,9 +125,15 @@ theorem classify_spec (c : Content) : ∀ (ks st dy apn : List Name),
               rcases List.mem_cons.mp ha with rfl | ha'
               · exact Or.inr (OnlyParams.intro' a d hd (fun x hx => hgood x (hargs x hx)))
               · exact hgood a ha'
-            obtain ⟨S, D, A, heq, hS, hD, hcov, hdyn, hstat, hnew, hg⟩ :=
+            obtain ⟨S, D, A, heq, hS, hD, hcov, hdyn, hstat, hnew, hg, hdisj⟩ :=
               ih (k :: st) dy (k :: apn) hgood'
-            refine ⟨k :: S, D, A ++ [k], by simp [heq], hS.cons_cons _, hD.cons _, ?_, ?_, ?_, ?_, ?_⟩
+            refine ⟨k :: S, D, A ++ [k], by simp [heq], hS.cons_cons _, hD.cons _, ?_, ?_, ?_, ?_, ?_, ?_⟩
+            rotate_left 5
+            · intro hnd x hxS hxD
+              simp only [List.nodup_cons] at hnd
+              rcases List.mem_cons.mp hxS with rfl | h
+              · exact hnd.1 (hD.subset hxD)
+              · exact hdisj hnd.2 x h hxD
             · intro x hx
               rcases List.mem_cons.mp hx with rfl | hx'
               · exact Or.inl (by simp)
@@ -145,8 +169,14 @@ theorem classify_spec (c : Content) : ∀ (ks st dy apn : List Name),
               simpa [List.append_assoc] using ha
           · have hall0 : (d.args.all fun a => apn.contains a) = false := by simpa using hall
             simp only [hall0, Bool.false_eq_true, if_false]
-            obtain ⟨S, D, A, heq, hS, hD, hcov, hdyn, hstat, hnew, hg⟩ := ih st (k :: dy) apn hgood
-            refine ⟨S, k :: D, A, by simp [heq], hS.cons _, hD.cons_cons _, ?_, ?_, hstat, hnew, hg⟩
+            obtain ⟨S, D, A, heq, hS, hD, hcov, hdyn, hstat, hnew, hg, hdisj⟩ := ih st (k :: dy) apn hgood
+            refine ⟨S, k :: D, A, by simp [heq], hS.cons _, hD.cons_cons _, ?_, ?_, hstat, hnew, hg, ?_⟩
+            rotate_left 2
+            · intro hnd x hxS hxD
+              simp only [List.nodup_cons] at hnd
+              rcases List.mem_cons.mp hxD with rfl | h
+              · exact hnd.1 (hS.subset hxS)
+              · exact hdisj hnd.2 x hxS h
             · intro x hx
               rcases List.mem_cons.mp hx with rfl | hx'
               · exact Or.inr (Or.inl (by simp))
